@@ -34,6 +34,17 @@ func drawC09(rt *rapid.T) *Case {
 	return &Case{Path: gen.Render(p, gen.Canon).Text, AST: p, Doc: root, UseNumber: rapid.Bool().Draw(rt, "usenumber"), Funcs: true}
 }
 
+// c09Entry is a parsed function kept across cases, with the first and the latest document it
+// was evaluated on (enough to rebuild "remembers its first / its previous document" defects
+// in a fresh process: the replay evaluates them in that order before the case itself).
+type c09Entry struct {
+	f               func(interface{}) ([]interface{}, error)
+	first, last     string
+	firstUN, lastUN bool
+}
+
+var c09Parsed = map[string]*c09Entry{}
+
 type selector struct {
 	c       *Case
 	doc     interface{}
@@ -41,6 +52,7 @@ type selector struct {
 	cache   map[string][]int
 	st      *Stats
 	err     string
+	reused  []string // (path, first doc, first mode, last doc, last mode) of every reused parsed function
 }
 
 func canon(v interface{}) string {
@@ -54,11 +66,28 @@ func (s *selector) sel(text string) []int {
 		return r
 	}
 	path := "$.list[?(" + text + ")]"
-	f, err := jsonpath.Parse(path, BuildConfig(nil, true, false))
-	if err != nil {
-		s.err = fmt.Sprintf("sub-expression %q was rejected by Parse: %v", path, err)
-		return nil
+	// Parsed functions are kept for the life of the process and reused by later cases with the
+	// same sub-expression (simple atoms recur constantly): a parsed function that remembers
+	// anything about an earlier document breaks the laws on a later one.
+	docText := s.c.Doc.JSON()
+	ent, ok := c09Parsed[path]
+	if !ok {
+		f, err := jsonpath.Parse(path, BuildConfig(nil, true, false))
+		if err != nil {
+			s.err = fmt.Sprintf("sub-expression %q was rejected by Parse: %v", path, err)
+			return nil
+		}
+		if len(c09Parsed) > 4000 {
+			c09Parsed = map[string]*c09Entry{}
+		}
+		ent = &c09Entry{f: f, first: docText, firstUN: s.c.UseNumber}
+		c09Parsed[path] = ent
+	} else {
+		s.st.Class("parsed-function-reused")
+		s.reused = append(s.reused, path, ent.first, fmt.Sprint(ent.firstUN), ent.last, fmt.Sprint(ent.lastUN))
 	}
+	ent.last, ent.lastUN = docText, s.c.UseNumber
+	f := ent.f
 	got, rerr := f(s.doc)
 	s.st.Eval(1)
 	var idx []int
@@ -265,8 +294,24 @@ func checkC09(c *Case, st *Stats) string {
 		return "harness: $.list is not a container"
 	}
 	st.Class(fmt.Sprintf("members:%d", len(s.members)))
+	// replay in a fresh process: rebuild the parsed functions the failing case had reused
+	if len(c.Strs) > 0 && len(c09Parsed) == 0 {
+		for i := 0; i+4 < len(c.Strs); i += 5 {
+			if f, err := jsonpath.Parse(c.Strs[i], BuildConfig(nil, true, false)); err == nil {
+				for _, k := range []int{1, 3} {
+					if d, derr := gen.Decode(c.Strs[i+k], c.Strs[i+k+1] == "true"); derr == nil && c.Strs[i+k] != "" {
+						_, _ = f(d)
+					}
+				}
+				c09Parsed[c.Strs[i]] = &c09Entry{f: f, first: c.Strs[i+1], firstUN: c.Strs[i+2] == "true", last: c.Strs[i+3], lastUN: c.Strs[i+4] == "true"}
+			}
+		}
+	}
 	q := c.AST.Steps[1].Q
 	if msg := s.check(q); msg != "" {
+		if len(c.Strs) == 0 {
+			c.Strs = s.reused
+		}
 		return msg
 	}
 	// non-trivial: some sub-expression selects a proper non-empty subset
